@@ -31,6 +31,15 @@ MAXDELTA = 60
 INT_TYPES = ["uint8", "sint8", "uint16", "sint16", "uint32", "sint32",
              "uint64", "sint64"]
 CLASS_OF = {t: getattr(pywbem, t.capitalize()) for t in INT_TYPES}
+# DSP0004 ranges, independent of the minvalue/maxvalue attributes of the code
+RANGE = {"uint8": (0, ANCHOR["U8MAX"]), "sint8": (ANCHOR["S8MIN"],
+                                                   ANCHOR["S8MAX"]),
+         "uint16": (0, ANCHOR["U16MAX"]), "sint16": (ANCHOR["S16MIN"],
+                                                     ANCHOR["S16MAX"]),
+         "uint32": (0, ANCHOR["U32MAX"]), "sint32": (ANCHOR["S32MIN"],
+                                                     ANCHOR["S32MAX"]),
+         "uint64": (0, ANCHOR["U64MAX"]), "sint64": (ANCHOR["S64MIN"],
+                                                     ANCHOR["S64MAX"])}
 
 
 def concrete_int(v):
@@ -151,10 +160,9 @@ def offered(rng, vc, n, dt):
         return (Real64(float(n)),), {}
     if vc == "list":
         extra = []
-        if dt in CLASS_OF:
-            cls = CLASS_OF[dt]
+        if dt in RANGE:
             for _ in range(rng.randrange(3)):
-                extra.append(rng.choice([cls.minvalue, cls.maxvalue, 0, 1]))
+                extra.append(rng.choice([RANGE[dt][0], RANGE[dt][1], 0, 1]))
         return ([n] + extra,), {}
     raise ValueError("unknown value class %r" % vc)
 
@@ -192,14 +200,18 @@ def run_store_cell(rng, cell):
     """cell = {c, dt, vc, v}; returns (vector for TLC, description)"""
     c, dt, vc, v = cell["c"], cell["dt"], cell["vc"], cell["v"]
     n = concrete_int(v)
-    args, kwargs = offered(rng, vc, n, dt)
-    val = args[0] if (len(args) == 1 and not kwargs) else None
-    desc = "%s(%s%s) type=%s" % (
-        c, ", ".join(_short(a) for a in args),
-        "".join(", %s=%s" % (k, _short(x)) for k, x in kwargs.items()), dt)
     ev = dict(k="store", c=c, dt=dt, vc=vc, v=v, out="stored", st="",
               hasv=False, sv={"a": "Z", "d": 0})
+    desc = "%s(<%s %d>) type=%s" % (c, vc, n, dt)
     try:
+        # building the offered value is part of the observed expression,
+        # e.g. cimvalue(Uint8(255), 'uint16')
+        args, kwargs = offered(rng, vc, n, dt)
+        val = args[0] if (len(args) == 1 and not kwargs) else None
+        desc = "%s(%s%s) type=%s" % (
+            c, ", ".join(_short(a) for a in args),
+            "".join(", %s=%s" % (k, _short(x)) for k, x in kwargs.items()),
+            dt)
         res = _container_call(c, dt, val, args, kwargs, vc == "list")
     except Exception as exc:  # noqa: every exception class is an observation
         ev["out"] = type(exc).__name__
@@ -241,7 +253,7 @@ def random_store_cell(rng):
         vcs = ["int", "str10", "bytes10", "str2", "str8", "str16", "str16kw",
                "xkw", "xkwstr16", "str0"]
     for t in INT_TYPES:
-        if CLASS_OF[t].minvalue <= n <= CLASS_OF[t].maxvalue:
+        if RANGE[t][0] <= n <= RANGE[t][1]:
             vcs.append("ci:" + t)
     return dict(c=c, dt=dt, vc=rng.choice(vcs), v=v)
 
@@ -585,12 +597,12 @@ def run_real(rng, t, cls, route, x):
     cimcls = Real32 if t == "real32" else Real64
     ev = dict(k="real", t=t, route=route, cls=cls, wrote="ok", text="",
               shape="", parsed="ok", back="", same=False, btype="")
-    obj = cimcls(x)
-    if t == "real64" and route == "atomic" and rng.random() < 0.3:
-        obj = x         # plain python float is documented as real64
     desc = "%s %s %r (%s)" % (t, route, x, x.hex() if isinstance(x, float)
                               else "")
+    plain = (t == "real64" and route == "atomic" and rng.random() < 0.3)
     try:
+        # a plain python float is documented as real64
+        obj = x if plain else cimcls(x)
         if route == "atomic":
             text = atomic_to_cim_xml(obj)
         else:
